@@ -4,11 +4,16 @@ namespace SaVerif.Drv.Poly
 open SaVerif.Drv SaVerif.Poly
 
 /-!
-* `single <ancs> <selectin> <C> <wp> <rows>`                 rows `id:disc:v.v.v;…`
-* `joined <ancs> <selectin> <root> <C> <wp> <base> <subs>`   base `id:disc:v;…`, subs per class `id:v,id:v|…`
-* `concrete <ancs> <C> <tables>`                             per class `id:v.v,id:v.v|…`
-ancs `0|0.1|0.2|0.1.3`; selectin `0.1.0.0`; wp `N`, `*` or `1.3`; `N` = NULL; `-` = empty.
-→ `ok <id:cls:v.v;…> / <primary statements> / <deferred loads>` or `err <kind>`
+* `single <ancs> <selectin> <idents> <C> <wp> <rows> <pe> <cnt> <pre>`                rows `id:disc:v.v.v;…`
+* `joined <ancs> <selectin> <idents> <root> <C> <wp> <base> <subs> <pe> <cnt> <pre>`  base `id:disc:v;…`, subs per class `id:v,id:v|…`
+* `concrete <ancs> <C> <tables> <pe> <cnt> <pre>`                                     per class `id:v.v,id:v.v|…`
+ancs `0|0.1|0.2|0.1.3`; selectin `0.1.0.0`; idents `3.N.0.1` (identity value per class, `N` =
+polymorphic_abstract, `-` = the class numbers); wp `N`, `*` or `1.3`; `N` = NULL; `-` = empty;
+disc = the discriminator VALUE of the row; pe `0/1` = populate_existing; cnt `0/1` = report the
+statement counts; pre = state of the objects already in the Session `id:t.t.t;…`, one token per
+attribute column: `U` unloaded (expired), `N` loaded NULL, an integer.
+→ `ok <id:cls:v.v;…> / <primary statements> / <deferred loads>` or `err <kind>`; the values are
+those attribute access returns after the load
 -/
 
 def parseDots? (s : String) : Option (List Nat) :=
@@ -20,10 +25,37 @@ def parseVals? (s : String) : Option (List (Option Int)) :=
 def parseOptNat? (s : String) : Option (Option Nat) :=
   if s == "N" then some none else s.toNat?.map some
 
-def parseHier? (ancs sel : String) : Option Hier := do
+def parseIdents? (s : String) : Option (List (Option Nat)) :=
+  if s == "-" then some [] else (s.splitOn ".").mapM parseOptNat?
+
+def parseHier? (ancs sel ids : String) : Option Hier := do
   let a ← (ancs.splitOn "|").mapM parseDots?
   let s ← parseDots? sel
-  pure ⟨a, s.map (· != 0)⟩
+  let i ← parseIdents? ids
+  pure ⟨a, s.map (· != 0), i⟩
+
+def parseASt? (s : String) : Option ASt :=
+  if s == "U" then some ⟨none, true⟩
+  else if s == "N" then some ⟨some none, false⟩
+  else s.toInt?.map (fun i => ⟨some (some i), false⟩)
+
+abbrev Pre := List (Nat × List ASt)
+
+def parsePre? (s : String) : Option Pre :=
+  if s == "-" then some [] else
+  (s.splitOn ";").mapM (fun r =>
+    match r.splitOn ":" with
+    | [i, t] => do pure ((← i.toNat?), (← (t.splitOn ".").mapM parseASt?))
+    | _ => none)
+
+def preFn (p : Pre) (id : Nat) : Option (Nat → ASt) :=
+  (p.find? (fun x => x.1 == id)).map (fun x a => x.2.getD a {})
+
+def parseFlag? (s : String) : Option Bool :=
+  if s == "1" then some true else if s == "0" then some false else none
+
+def parseTail? (pe cnt pre : String) : Option (Bool × Bool × Pre) := do
+  pure ((← parseFlag? pe), (← parseFlag? cnt), (← parsePre? pre))
 
 def parseWP? (s : String) : Option WP :=
   if s == "N" then some .none else if s == "*" then some .all else (parseDots? s).map .some
@@ -42,23 +74,24 @@ def showErr : LoadError → String
   | .notSubMapper => "not-sub-mapper"
   | .missingRow => "missing-row"
 
-def finish (h : Hier) (k : Kind) (c : Nat) (wp : WP) : Res (List Ent) → String
+def finish (h : Hier) (k : Kind) (c : Nat) (wp : WP) (pe cnt : Bool) (pre : Pre) : Res (List Ent) → String
   | .error e => "err " ++ showErr e
   | .ok ents =>
-    "ok " ++ showEnts ents ++ " / " ++ toString (primaryStatements h k c ents) ++ " / " ++
-      (if h.selectin.any id then "-" else toString (deferredLoads h k c wp ents))
+    "ok " ++ showEnts (ents.map (readEnt h c wp pe (preFn pre))) ++ " / " ++
+      (if cnt then toString (primaryStatements h k c ents) else "-") ++ " / " ++
+      (if !cnt || h.selectin.any id then "-" else toString (deferredLoadsSt h k c wp pe (preFn pre) ents))
 
 def handle : List String → String
-  | ["single", ancs, sel, c, wp, rows] =>
-    match parseHier? ancs sel, c.toNat?, parseWP? wp,
+  | ["single", ancs, sel, ids, c, wp, rows, pe, cnt, pre] =>
+    match parseTail? pe cnt pre, parseHier? ancs sel ids, c.toNat?, parseWP? wp,
       (splitList rows ";").mapM (fun r =>
         match r.splitOn ":" with
         | [i, d, v] => do pure (SRow.mk (← i.toNat?) (← parseOptNat? d) (← parseVals? v))
         | _ => none) with
-    | some h, some c, some wp, some rows => finish h .single c wp (querySingle h c rows)
-    | _, _, _, _ => "bad-op"
-  | ["joined", ancs, sel, root, c, wp, base, subs] =>
-    match parseHier? ancs sel, root.toNat?, c.toNat?, parseWP? wp,
+    | some (pe, cnt, pre), some h, some c, some wp, some rows => finish h .single c wp pe cnt pre (querySingle h c rows)
+    | _, _, _, _, _ => "bad-op"
+  | ["joined", ancs, sel, ids, root, c, wp, base, subs, pe, cnt, pre] =>
+    match parseTail? pe cnt pre, parseHier? ancs sel ids, root.toNat?, c.toNat?, parseWP? wp,
       (splitList base ";").mapM (fun r =>
         match r.splitOn ":" with
         | [i, d, v] => do pure ((← i.toNat?), (← parseOptNat? d), (← parseOptInt? v))
@@ -67,17 +100,17 @@ def handle : List String → String
         match r.splitOn ":" with
         | [i, v] => do pure ((← i.toNat?), (← parseOptInt? v))
         | _ => none)) with
-    | some h, some root, some c, some wp, some base, some subs =>
-      finish h .joined c wp (queryJoined h root c ⟨base, subs⟩)
-    | _, _, _, _, _, _ => "bad-op"
-  | ["concrete", ancs, c, tables] =>
-    match parseHier? ancs "-", c.toNat?,
+    | some (pe, cnt, pre), some h, some root, some c, some wp, some base, some subs =>
+      finish h .joined c wp pe cnt pre (queryJoined h root c ⟨base, subs⟩)
+    | _, _, _, _, _, _, _ => "bad-op"
+  | ["concrete", ancs, c, tables, pe, cnt, pre] =>
+    match parseTail? pe cnt pre, parseHier? ancs "-" "-", c.toNat?,
       (tables.splitOn "|").mapM (fun t => (splitList t ",").mapM (fun r =>
         match r.splitOn ":" with
         | [i, v] => do pure ((← i.toNat?), (← parseVals? v))
         | _ => none)) with
-    | some h, some c, some ts => finish h .concrete c .all (queryConcrete h c ts)
-    | _, _, _ => "bad-op"
+    | some (pe, cnt, pre), some h, some c, some ts => finish h .concrete c .all pe cnt pre (queryConcrete h c ts)
+    | _, _, _, _ => "bad-op"
   | _ => "bad-op"
 
 end SaVerif.Drv.Poly
